@@ -25,12 +25,14 @@ TICK = 1000       # ticks per SI unit in the generated comparisons
 
 CFG = {
     "quick": dict(BaseMags={0, 1000, 1000000, 500000000}, Rels={"default", "r100", "rmil", "r0"}, Abss={"none", "a1", "a50"},
-                  Spellings={"kilo", "milli"}, Families={"boundary", "mass", "complex", "dimension", "vector"}, MaxVec=3),
+                  Spellings={"kilo", "milli"}, Families={"boundary", "tiny", "mass", "complex", "dimension", "vector"},
+                  TickExps={40 - 13, 40 - 19, 40 - 30}, MaxVec=3),
     "thorough": dict(BaseMags={0, 1, 1000, 7919, 1000000, 31415926, 500000000}, Rels={"default", "r100", "rmil", "r5", "r0"},
                      Abss={"none", "a0", "a1", "a50"}, Spellings={"kilo", "milli"},
-                     Families={"boundary", "mass", "complex", "dimension", "vector"}, MaxVec=4),
+                     Families={"boundary", "tiny", "mass", "complex", "dimension", "vector"},
+                     TickExps={40 - 10, 40 - 13, 40 - 16, 40 - 19, 40 - 24, 40 - 30}, MaxVec=4),
 }
-INVARIANTS = ["TypeOK", "Disjoint", "SymmetricWithoutAbs", "UnitIndependent", "DimensionGuard", "Monotone", "SharpForReals",
+INVARIANTS = ["TypeOK", "Disjoint", "SymmetricWithoutAbs", "UnitIndependent", "ScaleIndependent", "DimensionGuard", "Monotone", "SharpForReals",
               "FinalIsAllowed", "PassNeedsAll"]
 REL = {"default": None, "r100": Fraction(1, 100), "rmil": Fraction(1, 10**6), "r5": Fraction(1, 20), "r0": Fraction(0)}
 ABS = {"none": None, "a0": 0, "a1": 1000, "a50": 50000}
@@ -153,12 +155,17 @@ def case_class(case):
     return s + f", absolute tolerance {'given' if an is not None else 'not given'}, {'complex' if cplx else 'real'} values"
 
 
+def tick_of(case):
+    """Ticks per SI unit: 1000 in general, 1000 * 10^-s10 in the tiny family."""
+    return TICK * 10 ** (-case.get("s10", 0))
+
+
 def replay_group(group):
     case, verdicts = group
     allowed = sorted(set(verdicts))
     out = []
     try:
-        for name, thunk in make_comparisons(case):
+        for name, thunk in make_comparisons(case, tick_of(case)):
             got, how = outcome_of(thunk)
             out.append((name, got, how))
     except HardTimeout:
@@ -186,7 +193,7 @@ def enumerate_and_replay(run: Run, sc, cfgd, pool):
     fams, calls, open_cases = {}, 0, 0
     for case, allowed, verdict, detail in pmap(pool, replay_group, list(groups.values())):
         run.traces += 1
-        text = case_text(case)
+        text = case_text(case, tick_of(case))
         run.count(text)
         fams[case["fam"]] = fams.get(case["fam"], 0) + 1
         if len(allowed) > 1:
@@ -409,7 +416,8 @@ def validate_records(run: Run, sc, recs, label):
     path = sc / f"verdicts_{label}.json"
     path.write_text(json.dumps(rows))
     cfg = write_cfg(sc / f"approxtrace_{label}.cfg", init="TInit", next_="TNext",
-                    constants=dict(BaseMags=set(), Rels=set(), Abss=set(), Spellings=set(), Families=set(), MaxVec=0),
+                    constants=dict(BaseMags=set(), Rels=set(), Abss=set(), Spellings=set(), Families=set(), TickExps=set(),
+                                   MaxVec=0),
                     invariants=["Validate", "Checked"])
     res = run_tlc("ApproxTrace", cfg, sc, workers=1, env={"TRACE_FILE": str(path)}, allow_violation=False)
     run.add_tlc(res, f"trace validation ({label}): {len(rows)} recorded verdicts of the real oracle against Allowed")
@@ -502,20 +510,20 @@ def replay_file(path: str) -> int:
     else:
         run = Run(PID, "replay")
         with Scratch() as sc:
-            rec = {"case": c, "fn": case["function"], "out": case["out"], "text": case_text(c)}
-            for name, thunk in make_comparisons(c):
+            rec = {"case": c, "fn": case["function"], "out": case["out"], "text": case_text(c, tick_of(c))}
+            for name, thunk in make_comparisons(c, tick_of(c)):
                 if name == case["function"]:
                     rec["out"], rec["how"] = outcome_of(thunk)
             validate_records(run, sc, [rec], "random")
         bad = bool(run.violations or run.known_hit)
-        print(f"replayed: {case_text(c)}: {case['function']} -> {rec['out']}")
+        print(f"replayed: {case_text(c, tick_of(c))}: {case['function']} -> {rec['out']}")
         allowed = None
     if allowed is not None:
-        for name, thunk in make_comparisons(c):
+        for name, thunk in make_comparisons(c, tick_of(c)):
             if name != case["function"]:
                 continue
             got, how = outcome_of(thunk)
-            print(f"replayed: {case_text(c)}: model allows {allowed}, {name} {how} ({got})")
+            print(f"replayed: {case_text(c, tick_of(c))}: model allows {allowed}, {name} {how} ({got})")
             bad = got not in allowed
     if bad:
         print(f"VIOLATION property={PID} replay={path}\n  {data['key']}")
